@@ -122,4 +122,8 @@ type Link struct {
 	many fp.Seq[acodec.Reader]
 }
 `,
+	// @fp.Generate (a template writing EqVec2..EqVec4) combined with @fp.Derive over a struct whose
+	// fields use those instances: the derive phase must see the same package whether gombok runs in a
+	// clean directory or on top of its own previous output.
+	"test/internal/zzverif3/geom.go": "package zzverif3\n\nimport (\n\t\"github.com/csgura/fp\"\n\t\"github.com/csgura/fp/eq\"\n\t\"github.com/csgura/fp/genfp\"\n)\n\n//go:generate go run github.com/csgura/fp/cmd/gombok\n\ntype Vec2 [2]float64\ntype Vec3 [3]float64\ntype Vec4 [4]float64\n\n// @fp.Generate\nvar _ = genfp.GenerateFromUntil{\n\tFile: \"vec_eq_gen.go\",\n\tImports: []genfp.ImportPackage{\n\t\t{Package: \"github.com/csgura/fp\", Name: \"fp\"},\n\t\t{Package: \"github.com/csgura/fp/eq\", Name: \"eq\"},\n\t},\n\tFrom:  2,\n\tUntil: 5,\n\tTemplate: `\n// EqVec{{.N}} compares two Vec{{.N}} component-wise with a tolerance of 1e-9.\nfunc EqVec{{.N}}() fp.Eq[Vec{{.N}}] {\n\treturn eq.New(func(a, b Vec{{.N}}) bool {\n\t\tfor i := range a {\n\t\t\tif d := a[i] - b[i]; d > 1e-9 || d < -1e-9 {\n\t\t\t\treturn false\n\t\t\t}\n\t\t}\n\t\treturn true\n\t})\n}\n`,\n}\n\n// @fp.Value\ntype Body struct {\n\tpos  Vec3\n\tvel  Vec3\n\tmass float64\n}\n\n// @fp.Derive\nvar _ eq.Derives[fp.Eq[Body]]\n",
 }
